@@ -67,7 +67,7 @@ func NewCtx(prop, tier, repo, verif string, seed int64) *Ctx {
 	return &Ctx{Prop: prop, Tier: tier, Repo: repo, VerifDir: verif, Seed: seed, start: time.Now(),
 		mods: map[string]*Module{}, rules: map[string]*RuleInfo{}, analysed: map[string]bool{}, extra: map[string]interface{}{},
 		assumptions: []string{"go/types and go/ssa (x/tools v0.29.0) represent the program faithfully; the analysed build configuration (no build tags, GOARCH of the host) is the supported one"},
-		notes: []string{}, fatal: []string{}}
+		notes:       []string{}, fatal: []string{}}
 }
 
 // Mod loads (once per run) a module of the repository.
@@ -85,7 +85,8 @@ func (c *Ctx) Mod(rel string) *Module {
 	return m
 }
 
-// Rule declares a rule with its floor (minimum number of instances confirmed by hand).
+// Rule declares a rule with its floor: about half of the number of instances confirmed by hand on the
+// reference tree (inlining and merging legitimately lower the count; a rule gone blind drops to near zero).
 func (c *Ctx) Rule(id, text string, floor int) {
 	if _, ok := c.rules[id]; ok {
 		return
@@ -244,7 +245,7 @@ func (c *Ctx) Finish() int {
 	for _, id := range c.ruleOrder {
 		ri := c.rules[id]
 		if ri.Instances < ri.Floor {
-			c.Fatalf("floor", "rule %s matched %d instance(s), fewer than the %d confirmed by hand: an anchor moved or the rule went blind", id, ri.Instances, ri.Floor)
+			c.Fatalf("floor", "rule %s matched %d instance(s), fewer than its floor of %d (about half of what was confirmed by hand on the reference tree; legitimate consolidation lowers counts, a rule gone blind drops to near zero)", id, ri.Instances, ri.Floor)
 		}
 	}
 
